@@ -17,6 +17,12 @@
 //!   (status)                 handle_status
 //! ```
 //!
+//! A case of the form `(stress SECS CLIENTS OBSERVERS)` is not a script: it lets
+//! CLIENTS client threads and OBSERVERS heartbeat / status threads use one real
+//! scheduler at the same time for SECS seconds, unsynchronised, and answers
+//! `(stress_ok)` when every thread got through, `(stress_stalled ..)` when no thread
+//! made progress for `stress::STALL_SECS` seconds (see `mod stress`).
+//!
 //! Everything between a `begin` and the matching `end_*` runs while that
 //! handle_alloc_job call sits in its window without holding any lock, which is
 //! exactly what other request threads of the real HTTP server can do.  The
@@ -450,6 +456,9 @@ impl World {
 }
 
 fn run_case(case: &Sx) -> Sx {
+    if case.arg(0).str() == "stress" {
+        return stress::run(case);
+    }
     let t0 = Instant::now();
     let mut w = World::new();
     let mut out = vec![];
@@ -659,5 +668,234 @@ mod sx {
         } else {
             Err(format!("unexpected char {:?} at {}", c as char, *pos))
         }
+    }
+}
+
+/// Real, unsynchronised concurrency: the only way to see a scheduler that stops
+/// serving because two handlers take the two mutexes in opposite orders.
+mod stress {
+    use super::{l, server_id, Authorizer, Sx};
+    use crate::Scheduler;
+    use sccache::dist::{
+        AllocJobResult, AssignJobResult, JobId, JobState, SchedulerIncoming, SchedulerOutgoing,
+        ServerId, ServerNonce, Toolchain,
+    };
+    use std::cell::Cell;
+    use std::panic::{catch_unwind, AssertUnwindSafe};
+    use std::sync::atomic::{AtomicBool, AtomicU64, AtomicUsize, Ordering};
+    use std::sync::Arc;
+    use std::time::{Duration, Instant};
+
+    /// no request of any thread completed for this long = the scheduler stopped serving
+    pub const STALL_SECS: u64 = 5;
+    const SERVERS: u64 = 4;
+    const CPUS: usize = 2;
+
+    /// What the build server answers to the assignment of this round.
+    #[derive(Clone, Copy)]
+    enum Outcome {
+        Ready,
+        Pending,
+        Fail,
+        /// the server restarts (heartbeat with a new nonce) while the call is in flight
+        ReRegisterThenReady,
+        /// other requests get in while the call is in flight
+        BusyThenReady,
+    }
+
+    struct Requester {
+        sched: Arc<Scheduler>,
+        outcome: Cell<Outcome>,
+    }
+
+    impl SchedulerOutgoing for Requester {
+        fn do_assign_job(
+            &self,
+            server_id: ServerId,
+            _job_id: JobId,
+            _tc: Toolchain,
+            _auth: String,
+        ) -> anyhow::Result<AssignJobResult> {
+            let ok = |state| {
+                Ok(AssignJobResult {
+                    state,
+                    need_toolchain: false,
+                })
+            };
+            match self.outcome.get() {
+                Outcome::Ready => ok(JobState::Ready),
+                Outcome::Pending => ok(JobState::Pending),
+                Outcome::Fail => Err(anyhow::anyhow!("scripted do_assign_job failure")),
+                Outcome::ReRegisterThenReady => {
+                    let _ = self.sched.handle_heartbeat_server(
+                        server_id,
+                        ServerNonce::new(),
+                        CPUS,
+                        Box::new(Authorizer { fails: false }),
+                    );
+                    ok(JobState::Ready)
+                }
+                Outcome::BusyThenReady => {
+                    let _ = self.sched.handle_status();
+                    std::thread::yield_now();
+                    ok(JobState::Ready)
+                }
+            }
+        }
+    }
+
+    fn client(sched: Arc<Scheduler>, me: usize, stop: &AtomicBool, progress: &AtomicU64) {
+        let requester = Requester {
+            sched: sched.clone(),
+            outcome: Cell::new(Outcome::Ready),
+        };
+        let mut round = me as u64;
+        while !stop.load(Ordering::Relaxed) {
+            round += 1;
+            let outcome = match round % 16 {
+                3 => Outcome::Pending,
+                7 => Outcome::Fail,
+                11 => Outcome::ReRegisterThenReady,
+                13 => Outcome::BusyThenReady,
+                _ => Outcome::Ready,
+            };
+            requester.outcome.set(outcome);
+            let tc = Toolchain {
+                archive_id: "verif".to_owned(),
+            };
+            if let Ok(AllocJobResult::Success { job_alloc, .. }) =
+                sched.handle_alloc_job(&requester, tc)
+            {
+                let (job, server) = (job_alloc.job_id, job_alloc.server_id);
+                if round % 5 == 0 {
+                    // refused: not the owner, not the next state
+                    let other = server_id((round + 1) % SERVERS);
+                    let _ = sched.handle_update_job_state(job, other, JobState::Started);
+                    let _ = sched.handle_update_job_state(job, server, JobState::Complete);
+                }
+                let states: &[JobState] = if matches!(outcome, Outcome::Pending) {
+                    &[JobState::Ready, JobState::Started, JobState::Complete]
+                } else {
+                    &[JobState::Started, JobState::Complete]
+                };
+                for &state in states {
+                    let _ = sched.handle_update_job_state(job, server, state);
+                }
+            }
+            progress.fetch_add(1, Ordering::Relaxed);
+        }
+    }
+
+    fn observer(
+        sched: Arc<Scheduler>,
+        me: usize,
+        nonces: &[ServerNonce],
+        stop: &AtomicBool,
+        progress: &AtomicU64,
+    ) {
+        let mut round = me as u64;
+        while !stop.load(Ordering::Relaxed) {
+            round += 1;
+            let s = round % SERVERS;
+            let nonce = if round % 97 == 0 {
+                ServerNonce::new()
+            } else {
+                nonces[s as usize].clone()
+            };
+            let _ = sched.handle_heartbeat_server(
+                server_id(s),
+                nonce,
+                CPUS,
+                Box::new(Authorizer { fails: false }),
+            );
+            let _ = sched.handle_status();
+            if round % 7 == 0 {
+                let _ = sched.handle_update_job_state(JobId(round), server_id(s), JobState::Ready);
+            }
+            progress.fetch_add(1, Ordering::Relaxed);
+        }
+    }
+
+    pub fn run(case: &Sx) -> Sx {
+        let secs = case.arg(1).u64().clamp(1, 60);
+        let clients = case.arg(2).u64().clamp(1, 16) as usize;
+        let observers = case.arg(3).u64().clamp(1, 16) as usize;
+        let sched = Arc::new(Scheduler::new());
+        let nonces: Arc<Vec<ServerNonce>> =
+            Arc::new((0..SERVERS).map(|_| ServerNonce::new()).collect());
+        for s in 0..SERVERS {
+            let _ = sched.handle_heartbeat_server(
+                server_id(s),
+                nonces[s as usize].clone(),
+                CPUS,
+                Box::new(Authorizer { fails: false }),
+            );
+        }
+        let stop = Arc::new(AtomicBool::new(false));
+        let panicked = Arc::new(AtomicBool::new(false));
+        let finished = Arc::new(AtomicUsize::new(0));
+        let threads = clients + observers;
+        let progress: Arc<Vec<AtomicU64>> =
+            Arc::new((0..threads).map(|_| AtomicU64::new(0)).collect());
+        for t in 0..threads {
+            let (sched, nonces, stop, panicked, finished, progress) = (
+                sched.clone(),
+                nonces.clone(),
+                stop.clone(),
+                panicked.clone(),
+                finished.clone(),
+                progress.clone(),
+            );
+            // never joined: a deadlocked thread stays blocked until the process exits
+            std::thread::spawn(move || {
+                let r = catch_unwind(AssertUnwindSafe(|| {
+                    if t < clients {
+                        client(sched, t, &stop, &progress[t])
+                    } else {
+                        observer(sched, t, &nonces, &stop, &progress[t])
+                    }
+                }));
+                if r.is_err() {
+                    panicked.store(true, Ordering::SeqCst);
+                }
+                finished.fetch_add(1, Ordering::SeqCst);
+            });
+        }
+        let total = |p: &Vec<AtomicU64>| p.iter().map(|x| x.load(Ordering::Relaxed)).sum::<u64>();
+        let start = Instant::now();
+        let mut last_total = 0;
+        let mut last_change = Instant::now();
+        loop {
+            std::thread::sleep(Duration::from_millis(20));
+            let done = finished.load(Ordering::SeqCst);
+            if done == threads {
+                break;
+            }
+            let now_total = total(&progress) + done as u64;
+            if now_total != last_total {
+                last_total = now_total;
+                last_change = Instant::now();
+            }
+            if start.elapsed().as_secs() >= secs {
+                stop.store(true, Ordering::SeqCst);
+            }
+            if last_change.elapsed().as_secs() >= STALL_SECS {
+                // the watchdog: nobody got a request through for STALL_SECS seconds
+                stop.store(true, Ordering::SeqCst);
+                return l(vec![
+                    Sx::sym("stress_stalled"),
+                    Sx::usize(done),
+                    Sx::usize(threads),
+                    Sx::n(total(&progress)),
+                ]);
+            }
+        }
+        if panicked.load(Ordering::SeqCst)
+            || sched.jobs.is_poisoned()
+            || sched.servers.is_poisoned()
+        {
+            return l(vec![Sx::sym("stress_panicked")]);
+        }
+        l(vec![Sx::sym("stress_ok")])
     }
 }
